@@ -26,6 +26,33 @@ thread_local! {
 }
 static NEXT_TASK: AtomicU64 = AtomicU64::new(1);
 
+thread_local! {
+    /// The waker of the task being polled through `WakeFlag::poll` (to recognise registrations made
+    /// with that very waker).
+    static CUR_WAKER: RefCell<Option<Waker>> = const { RefCell::new(None) };
+    /// Registrations made with the current task's waker during the current top-level poll.
+    static REGS: Cell<u64> = const { Cell::new(0) };
+    /// Top-level polls that returned `Pending` although the task's waker neither fired during the poll
+    /// nor was registered with any source of readiness: whoever is polled like that is never polled again
+    /// by a runtime (the contract of `Future::poll`). Counted, with the first few described.
+    static BREACHES: RefCell<(u64, Vec<String>)> = const { RefCell::new((0, Vec::new())) };
+    /// Whether `poll_once` (and everything built on it) polls through a per-thread task handle and
+    /// checks that contract, instead of using a no-op waker.
+    static CONTRACT_CHECK: Cell<bool> = const { Cell::new(false) };
+    static HARNESS_TASK: Arc<WakeFlag> = WakeFlag::new();
+}
+
+/// Switch the wake-up contract check of `poll_once` on (only sound when every leaf source of readiness
+/// that the polled futures can wait on is one of the virtual ones in this crate).
+pub fn enable_wake_contract_check(on: bool) {
+    CONTRACT_CHECK.with(|c| c.set(on));
+}
+
+/// (number of breaches of the wake-up contract observed on this thread, descriptions of the first few)
+pub fn take_wake_contract_breaches() -> (u64, Vec<String>) {
+    BREACHES.with(|b| std::mem::take(&mut *b.borrow_mut()))
+}
+
 /// A task handle as a runtime keeps it: "has the waker fired since the last poll".
 #[derive(Debug)]
 pub struct WakeFlag {
@@ -67,9 +94,22 @@ impl WakeFlag {
         });
         let prev = CURRENT.with(|c| c.replace((self.id, gen)));
         let waker = Waker::from(self.clone());
+        let prev_waker = CUR_WAKER.with(|w| w.replace(Some(waker.clone())));
+        let prev_regs = REGS.with(|r| r.replace(0));
         let mut cx = Context::from_waker(&waker);
         let r = fut.poll(&mut cx);
+        let regs = REGS.with(|r| r.replace(prev_regs));
+        CUR_WAKER.with(|w| *w.borrow_mut() = prev_waker);
         CURRENT.with(|c| c.set(prev));
+        if r.is_pending() && regs == 0 && !self.is_set() {
+            BREACHES.with(|b| {
+                let mut b = b.borrow_mut();
+                b.0 += 1;
+                if b.1.len() < 3 {
+                    b.1.push(format!("{} returned Pending without waking its task or registering its waker with any source", core::any::type_name::<F>()));
+                }
+            });
+        }
         r
     }
 }
@@ -91,7 +131,14 @@ impl WakeSlot {
     /// The source returned `Pending`: remember who to wake.
     pub fn register(&mut self, cx: &Context<'_>) {
         let (id, gen) = CURRENT.with(|c| c.get());
-        self.0 = Some((id, gen, cx.waker().clone()));
+        if CUR_WAKER.with(|w| w.borrow().as_ref().is_some_and(|w| w.will_wake(cx.waker()))) {
+            REGS.with(|r| r.set(r.get() + 1));
+            self.0 = Some((id, gen, cx.waker().clone()));
+        } else {
+            // registered with somebody else's waker (e.g. a no-op one inside `now_or_never`): waking it
+            // does not reach the task
+            self.0 = Some((0, 0, cx.waker().clone()));
+        }
     }
     /// The source became ready: wake the registered task, if the registration is current.
     pub fn fire(&mut self) {
@@ -109,6 +156,10 @@ impl WakeSlot {
 
 /// Poll a pinned future once.
 pub fn poll_once<F: Future + ?Sized>(fut: Pin<&mut F>) -> Poll<F::Output> {
+    if CONTRACT_CHECK.with(|c| c.get()) {
+        let task = HARNESS_TASK.with(|t| t.clone());
+        return task.poll(fut);
+    }
     let mut cx = Context::from_waker(Waker::noop());
     fut.poll(&mut cx)
 }
